@@ -165,7 +165,9 @@ def device_hookup(c, kind="utmi"):
     from luna.gateware.usb.usb2.device import USBDevice
     from luna.gateware.usb.usb2.packet import USBTokenDetector, USBDataPacketReceiver
     from luna.gateware.usb.usb2.endpoints.stream import USBStreamInEndpoint, USBStreamOutEndpoint
-    from .c10_unsupported_requests_stall import small_descriptors, flat, wires
+    from luna.gateware.usb.usb2.packet import USBDataPacketCRC
+    from .c10_unsupported_requests_stall import small_descriptors, flat, wires, instance_sig, instance_reg, instance_regs
+    from .w1_usb2_glue import timers_by_role
     if kind == "utmi":
         utmi = UTMIInterface()
         d = USBDevice(bus=utmi)
@@ -190,7 +192,13 @@ def device_hookup(c, kind="utmi"):
     td = ts.instance(USBTokenDetector)
     rxr = ts.instance(USBDataPacketReceiver)
     speed = ts.outputs["speed"]
-    c.lemma("setup_decoder_speed_is_the_timers_and_the_devices", z3.And(same(sd.speed, speed), ts.sig("timer.speed") == speed,
+    # the device's shared inter-packet timer and CRC16 unit: the real instances, by class / role (the token detector has a
+    # private timer of its own), not by the submodule names USBDevice.elaborate happens to use
+    timer, _ = timers_by_role(ts, td)
+    crc = ts.instance(USBDataPacketCRC)
+    timer_regs = instance_regs(ts, timer)            # the timer holds one register: its counter
+    timer_counter = timer_regs[0][1] if len(timer_regs) == 1 else instance_reg(ts, timer, "counter")
+    c.lemma("setup_decoder_speed_is_the_timers_and_the_devices", z3.And(same(sd.speed, speed), of(timer.speed) == speed,
                                                                        of(td.speed) == speed),
             clause="the decoder's 'high speed: ACK at once' shortcut, the inter-packet timer and the token detector all use the "
                    "device's current speed")
@@ -198,19 +206,20 @@ def device_hookup(c, kind="utmi"):
     c.lemma("setup_decoder_tokenizer_is_the_token_detector", z3.And(*[same(sdt[f], of(tdi[f])) for f in sdt]),
             clause="every field of the decoder's tokenizer record is the device's token detector's (require token_detector_contract)")
     c.lemma("setup_decoder_timer_is_the_device_timer",
-            z3.And(same(sd.timer.tx_allowed, ts.sig("timer.rx_to_tx_at_min")), same(sd.timer.tx_timeout, ts.sig("timer.rx_to_tx_at_max")),
-                   same(sd.timer.rx_timeout, ts.sig("timer.tx_to_rx_timeout"))),
+            z3.And(same(sd.timer.tx_allowed, instance_sig(ts, timer, "rx_to_tx_at_min")),
+                   same(sd.timer.tx_timeout, instance_sig(ts, timer, "rx_to_tx_at_max")),
+                   same(sd.timer.rx_timeout, instance_sig(ts, timer, "tx_to_rx_timeout"))),
             clause="the decoder's 'response allowed' is the device inter-packet timer's minimum rx-to-tx delay strobe (C05), "
                    "not the maximum / timeout strobes")
-    c.ensure("setup_decoder_start_restarts_the_device_timer", z3.Implies(of(sd.timer.start) == 1, c.nx(ts.sig("timer.counter")) == 0),
+    c.ensure("setup_decoder_start_restarts_the_device_timer", z3.Implies(of(sd.timer.start) == 1, c.nx(timer_counter) == 0),
              clause="the gap is measured by the device timer from the end of the SETUP data packet (the decoder's start restarts it)")
     c.lemma("setup_decoder_crc_is_the_shared_crc_unit", z3.And(same(sd.data_crc.crc, of(rxr.data_crc.crc)), same(dh.data_crc.crc, of(rxr.data_crc.crc))),
             clause="the decoder's deserializer checks against the device's shared CRC16 unit output (the one the data receiver reads; "
                    "C30/C02 wiring)")
-    c.ensure("setup_decoder_start_reseeds_the_shared_crc_unit", z3.Implies(of(sd.data_crc.start) == 1, c.nx(ts.sig("data_crc.crc")) == 0xFFFF),
+    c.ensure("setup_decoder_start_reseeds_the_shared_crc_unit", z3.Implies(of(sd.data_crc.start) == 1, c.nx(instance_reg(ts, crc, "crc", width=16)) == 0xFFFF),
              clause="start reseeds the shared CRC unit (require crc_unit_contract)")
     c.lemma("shared_crc_unit_and_decoder_watch_the_same_bus",
-            z3.And(ts.sig("data_crc.rx_data") == of(d.utmi.rx_data), ts.sig("data_crc.rx_valid") == of(d.utmi.rx_valid),
+            z3.And(of(crc.rx_data) == of(d.utmi.rx_data), of(crc.rx_valid) == of(d.utmi.rx_valid),
                    z3.BoolVal(sd.utmi is d.utmi and dh.utmi is d.utmi and td.utmi is d.utmi)),
             clause="CRC unit, token detector and setup decoder all watch the device's one UTMI receive stream")
     c.inv("no_state_needed", z3.BoolVal(True))
